@@ -43,8 +43,15 @@ def check_schedule(rec):
                         f"{'beta-not-advancing' if stalled else 'slow'}/pop={pop}/tol={tol:g}",
                         {"betas_tail": betas[-3:], "iterations": len(betas)}))
         else:
-            out.append((f"C06/raises/{name}/{site}/" + ("max_n_steps-without-min_step" if (max_n is not None and min_step is None) else "other"),
-                        {"msg": msg, "betas": betas}))
+            names = [rec["init"]] + list(rec["pops"])
+            pop = names[min(len(betas), len(names) - 1)] if names else "?"
+            if name == "ValueError" and "NaN" in msg and pop == "dead" and adaptive and betas and (betas[-1] == (betas[-2] if len(betas) > 1 else 0.0)):
+                why = "zero-length-step-on-population-with-zero-likelihood-particle"
+            elif max_n is not None and min_step is None:
+                why = "max_n_steps-without-min_step"
+            else:
+                why = "other"
+            out.append((f"C06/raises/{name}/{site}/{why}", {"msg": msg, "betas": betas, "population": pop}))
         return out
     prev = 0.0
     tol = o.get("beta_tolerance") or 1e-6
@@ -63,7 +70,8 @@ def check_schedule(rec):
             out.append(("C06/min_step-not-honoured", {"t": t, "beta": b, "prev": prev, "min_step": min_step}))
         prev = b
     iters = len(betas)
-    if max_n is not None and adaptive:
+    if max_n is not None:
+        # a step cap is honoured by adaptive and fixed schedules alike
         if iters > max_n:
             out.append(("C06/max_n_steps-exceeded", {"iterations": iters, "max_n_steps": max_n}))
         if iters < max_n and (not betas or betas[-1] != 1.0):
@@ -120,7 +128,7 @@ def check_history(rec, resumed=False):
         if not ref.close(h["ess"][t - 1], e, 1e-9, 1e-12):
             out.append(("C18/ess-mismatch", {"t": t, "got": h["ess"][t - 1], "ref": e}))
         lr = float(ref.log_mean_exp(logu))
-        if not ref.close(h["log_norm_ratio"][t - 1], lr, 1e-9, 1e-9 * (1 + abs(b1 - b0) * max(abs(v) for v in a))):
+        if not ref.close(h["log_norm_ratio"][t - 1], lr, 1e-9, 1e-9 * (1 + abs(b1 - b0) * max([abs(v) for v in a if math.isfinite(v)] or [0.0]))):
             out.append(("C18/ratio-mismatch", {"t": t, "got": h["log_norm_ratio"][t - 1], "ref": lr}))
         et = float(ref.ess([(1.0 - b0) * v for v in a]))
         if not ref.close(h["ess_target"][t - 1], et, 1e-9, 1e-12):
@@ -148,7 +156,7 @@ def check_evidence(rec):
         a = _a(prev)
         logu = [(b1 - b0) * v for v in a]
         lr = ref.log_mean_exp(logu)
-        scale = 1 + abs(b1 - b0) * max(abs(v) for v in a)
+        scale = 1 + abs(b1 - b0) * max([abs(v) for v in a if math.isfinite(v)] or [0.0])
         if not ref.close(h["log_norm_ratio"][t - 1], lr, 1e-9, 1e-9 * scale):
             out.append(("C08/step-ratio", {"t": t, "got": h["log_norm_ratio"][t - 1], "ref": float(lr)}))
         v = ref.delta_var(logu)
